@@ -34,6 +34,9 @@ structure Sys where
   outB : List Bytes
   /-- ghost: per channel id, the messages A's application submitted that the reliable channel accepted -/
   submitted : Nat → List Bytes
+  /-- ghost: per channel id, the messages A's application passed to `send_message` on the UNRELIABLE channel of that id
+      (whether the queue kept them or dropped them for lack of memory) -/
+  submittedU : Nat → List Bytes
   /-- ghost: per channel id, the messages B's application obtained -/
   obtained : Nat → List Bytes
   /-- ghost: indices into `outA` of the datagrams handed to B so far -/
@@ -56,18 +59,23 @@ def push (f : Nat → List Bytes) (ch : Nat) (m : Bytes) : Nat → List Bytes :=
 def Sys.init (cfg : Cfg) : Sys :=
   { a := Conn.fromChannels cfg.budget cfg.send cfg.recv
     b := Conn.fromChannels cfg.budget cfg.recv cfg.send
-    outA := [], outB := [], submitted := fun _ => [], obtained := fun _ => [], deliveredToB := [] }
+    outA := [], outB := [], submitted := fun _ => [], submittedU := fun _ => [], obtained := fun _ => [], deliveredToB := [] }
 
 /-- the message was accepted into `unacked` of reliable channel `ch`: the connection was live, `ch` is a reliable
     send channel, and `send_message` did not disconnect -/
 def accepted (a a' : Conn) (ch : Nat) : Bool :=
   !a.isDisconnected && (SMap.find? a.sendRel ch).isSome && !a'.isDisconnected
 
+/-- the message is passed to the unreliable send channel `ch` of a live connection -/
+def offeredU (a : Conn) (ch : Nat) : Bool :=
+  !a.isDisconnected && (SMap.find? a.sendRel ch).isNone && (SMap.find? a.sendUnrel ch).isSome
+
 /-- one operation; `none` = the model function panicked or the index is out of range -/
 def Sys.step (s : Sys) : SysOp → Option Sys
   | .sendA ch m =>
     match s.a.sendMessage ch m with
-    | .ok a' => some { s with a := a', submitted := if accepted s.a a' ch then push s.submitted ch m else s.submitted }
+    | .ok a' => some { s with a := a', submitted := if accepted s.a a' ch then push s.submitted ch m else s.submitted,
+                              submittedU := if offeredU s.a ch then push s.submittedU ch m else s.submittedU }
     | _ => none
   | .recvB ch =>
     match s.b.receiveMessage ch with
@@ -1371,67 +1379,75 @@ theorem inv1_step {cfg : Cfg} {s s' : Sys} {pkA : List Packet} {op : SysOp} (h :
 
 /-- Everything the wire format has to carry is in range: channel ids are bytes (they are `u8` in the Rust code),
     A's packet sequence counter and message-id counters have not passed 2^62 (the varint limit, where the Rust
-    encoder hits `unreachable!`), and no submitted message needs more than `MAX_NUM_SLICES` slices (1.2 GB; the
-    receiver rejects larger slice counts).  All four only ever get harder to satisfy as a run proceeds, so they are
-    stated for the state at hand and hold for every earlier state of the run (`counters_step`). -/
+    encoder hits `unreachable!`), and no message submitted on a reliable (`lens`) or unreliable (`lensU`) channel
+    needs more than `MAX_NUM_SLICES` slices (1.2 GB; the receiver rejects larger slice counts).  All of them only
+    ever get harder to satisfy as a run proceeds, so they are stated for the state at hand and hold for every
+    earlier state of the run (`counters_step`). -/
 structure CountersOK (cfg : Cfg) (s : Sys) : Prop where
   chan : ∀ c ∈ cfg.send, c.id < 256
   seq : s.a.packetSeq ≤ Varint.MAX + 1
   ids : ∀ c ∈ cfg.send, (s.submitted c.id).length ≤ Varint.MAX + 1
   lens : ∀ c ∈ cfg.send, ∀ m ∈ s.submitted c.id, m.length ≤ MAX_NUM_SLICES * SLICE_SIZE
+  lensU : ∀ c ∈ cfg.send, ∀ m ∈ s.submittedU c.id, m.length ≤ MAX_NUM_SLICES * SLICE_SIZE
 
 theorem step_mono {cfg : Cfg} {s s' : Sys} {pkA : List Packet} {op : SysOp} (h : Inv1 cfg s pkA)
     (hs : s.step op = some s') :
-    s.a.packetSeq ≤ s'.a.packetSeq ∧ (∀ ch, s.submitted ch <+: s'.submitted ch) ∧ s.outA <+: s'.outA := by
+    s.a.packetSeq ≤ s'.a.packetSeq ∧ (∀ ch, s.submitted ch <+: s'.submitted ch) ∧ s.outA <+: s'.outA ∧
+    (∀ ch, s.submittedU ch <+: s'.submittedU ch) := by
   cases op with
   | sendA ch m =>
     simp only [Sys.step] at hs
     split at hs
     · rename_i a' hm
       cases hs
-      refine ⟨by rw [sendMessage_packetSeq hm]; exact Nat.le_refl _, ?_, List.prefix_refl _⟩
-      intro c
-      dsimp only
-      split
-      · exact push_prefix _ _ _ c
-      · exact List.prefix_refl _
+      refine ⟨by rw [sendMessage_packetSeq hm]; exact Nat.le_refl _, ?_, List.prefix_refl _, ?_⟩
+      · intro c
+        dsimp only
+        split
+        · exact push_prefix _ _ _ c
+        · exact List.prefix_refl _
+      · intro c
+        dsimp only
+        split
+        · exact push_prefix _ _ _ c
+        · exact List.prefix_refl _
     · cases hs
   | recvB ch =>
     simp only [Sys.step] at hs
     split at hs
-    · cases hs; exact ⟨Nat.le_refl _, fun _ => List.prefix_refl _, List.prefix_refl _⟩
-    · cases hs; exact ⟨Nat.le_refl _, fun _ => List.prefix_refl _, List.prefix_refl _⟩
+    · cases hs; exact ⟨Nat.le_refl _, fun _ => List.prefix_refl _, List.prefix_refl _, fun _ => List.prefix_refl _⟩
+    · cases hs; exact ⟨Nat.le_refl _, fun _ => List.prefix_refl _, List.prefix_refl _, fun _ => List.prefix_refl _⟩
     · cases hs
   | updA dt =>
     simp only [Sys.step] at hs
     split at hs
     · rename_i a' hm
       cases hs
-      exact ⟨by rw [(SI.Conn.update_spec hm).2.2.1]; exact Nat.le_refl _, fun _ => List.prefix_refl _, List.prefix_refl _⟩
+      exact ⟨by rw [(SI.Conn.update_spec hm).2.2.1]; exact Nat.le_refl _, fun _ => List.prefix_refl _, List.prefix_refl _, fun _ => List.prefix_refl _⟩
     · cases hs
   | updB dt =>
     simp only [Sys.step] at hs
     split at hs
-    · cases hs; exact ⟨Nat.le_refl _, fun _ => List.prefix_refl _, List.prefix_refl _⟩
+    · cases hs; exact ⟨Nat.le_refl _, fun _ => List.prefix_refl _, List.prefix_refl _, fun _ => List.prefix_refl _⟩
     · cases hs
   | flushA =>
     simp only [Sys.step] at hs
     split at hs
     · rename_i a' bs hm
       cases hs
-      exact ⟨(flush_facts h.invA.1 hm).2.2.2.1, fun _ => List.prefix_refl _, List.prefix_append _ _⟩
+      exact ⟨(flush_facts h.invA.1 hm).2.2.2.1, fun _ => List.prefix_refl _, List.prefix_append _ _, fun _ => List.prefix_refl _⟩
     · cases hs
   | flushB =>
     simp only [Sys.step] at hs
     split at hs
-    · cases hs; exact ⟨Nat.le_refl _, fun _ => List.prefix_refl _, List.prefix_refl _⟩
+    · cases hs; exact ⟨Nat.le_refl _, fun _ => List.prefix_refl _, List.prefix_refl _, fun _ => List.prefix_refl _⟩
     · cases hs
   | deliverToB k =>
     simp only [Sys.step] at hs
     split at hs
     · cases hs
     · split at hs
-      · cases hs; exact ⟨Nat.le_refl _, fun _ => List.prefix_refl _, List.prefix_refl _⟩
+      · cases hs; exact ⟨Nat.le_refl _, fun _ => List.prefix_refl _, List.prefix_refl _, fun _ => List.prefix_refl _⟩
       · cases hs
   | deliverToA k =>
     simp only [Sys.step] at hs
@@ -1440,15 +1456,17 @@ theorem step_mono {cfg : Cfg} {s s' : Sys} {pkA : List Packet} {op : SysOp} (h :
     · split at hs
       · rename_i a' hm
         cases hs
-        exact ⟨by rw [processPacket_packetSeq h.invA.1 hm]; exact Nat.le_refl _, fun _ => List.prefix_refl _, List.prefix_refl _⟩
+        exact ⟨by rw [processPacket_packetSeq h.invA.1 hm]; exact Nat.le_refl _, fun _ => List.prefix_refl _, List.prefix_refl _, fun _ => List.prefix_refl _⟩
       · cases hs
 
 theorem counters_step {cfg : Cfg} {s s' : Sys} {pkA : List Packet} {op : SysOp} (h : Inv1 cfg s pkA)
     (hs : s.step op = some s') (hc : CountersOK cfg s') : CountersOK cfg s := by
-  obtain ⟨m1, m2, -⟩ := step_mono h hs
-  refine ⟨hc.chan, Nat.le_trans m1 hc.seq, fun c hcm => Nat.le_trans (m2 c.id).length_le (hc.ids c hcm), ?_⟩
-  intro c hcm m hm
-  exact hc.lens c hcm m ((m2 c.id).subset hm)
+  obtain ⟨m1, m2, -, m4⟩ := step_mono h hs
+  refine ⟨hc.chan, Nat.le_trans m1 hc.seq, fun c hcm => Nat.le_trans (m2 c.id).length_le (hc.ids c hcm), ?_, ?_⟩
+  · intro c hcm m hm
+    exact hc.lens c hcm m ((m2 c.id).subset hm)
+  · intro c hcm m hm
+    exact hc.lensU c hcm m ((m4 c.id).subset hm)
 
 /-! ## system invariants, layer 2 (under `CountersOK`): the wire round trip and the receiver -/
 
@@ -2372,56 +2390,6 @@ theorem invR_step {cfg : Cfg} {s s' : Sys} {pkA : List Packet} {op : SysOp} (h1 
         exact relEv_ack h1 hR (List.mem_of_getElem? hb) hm (fun ch sA hf => (h1'.chanA ch sA hf).1) h1'.invA.1
       · cases hs
 
-/-! ## the invariants hold along every run -/
-
-/-- the ghost packet list after a run (mirrors `Sys.run`) -/
-def runPk (s : Sys) : List SysOp → List Packet → List Packet
-  | [], pk => pk
-  | op :: ops, pk =>
-    match s.step op with
-    | some s' => runPk s' ops (nextPk s op pk)
-    | none => pk
-
-theorem inv_run (cfg : Cfg) : ∀ (ops : List SysOp) (s s' : Sys) (pkA : List Packet),
-    Inv1 cfg s pkA → (CountersOK cfg s → Inv2 cfg s pkA) → InvR cfg s pkA → s.run ops = some s' →
-    Inv1 cfg s' (runPk s ops pkA) ∧ (CountersOK cfg s' → Inv2 cfg s' (runPk s ops pkA)) ∧ InvR cfg s' (runPk s ops pkA)
-  | [], s, s', pkA, h1, h2, h3, hr => by
-    simp only [Sys.run, Option.some.injEq] at hr; subst hr; exact ⟨h1, h2, h3⟩
-  | op :: ops, s, s', pkA, h1, h2, h3, hr => by
-    simp only [Sys.run] at hr
-    cases hs : s.step op with
-    | none => rw [hs] at hr; cases hr
-    | some s1 =>
-      rw [hs] at hr
-      simp only [runPk, hs]
-      exact inv_run cfg ops s1 s' _ (inv1_step h1 hs)
-        (fun hc => inv2_step h1 (h2 (counters_step h1 hs hc)) hs hc) (invR_step h1 h3 hs) hr
-
-/-- every state reachable from the initial one satisfies layer 1, and layer 2 when its counters are in range -/
-theorem system_inv (cfg : Cfg) (ops : List SysOp) (s : Sys) (hr : (Sys.init cfg).run ops = some s) :
-    ∃ pkA, Inv1 cfg s pkA ∧ (CountersOK cfg s → Inv2 cfg s pkA) ∧ InvR cfg s pkA :=
-  ⟨_, inv_run cfg ops _ s [] (inv1_init cfg) (fun _ => inv2_init cfg) (invR_init cfg) hr⟩
-
-
-theorem counters_run_from (cfg : Cfg) : ∀ (ops : List SysOp) (s s' : Sys) (pkA : List Packet),
-    Inv1 cfg s pkA → s.run ops = some s' → CountersOK cfg s' → CountersOK cfg s
-  | [], s, s', _, _, hr, hc => by
-    simp only [Sys.run, Option.some.injEq] at hr; subst hr; exact hc
-  | op :: ops, s, s', pkA, h1, hr, hc => by
-    simp only [Sys.run] at hr
-    cases hs : s.step op with
-    | none => rw [hs] at hr; cases hr
-    | some s1 =>
-      rw [hs] at hr
-      exact counters_step h1 hs (counters_run_from cfg ops s1 s' _ (inv1_step h1 hs) hr hc)
-
-/-- the counters hypothesis propagates backwards along a run -/
-theorem counters_run (cfg : Cfg) (ops1 ops2 : List SysOp) (s1 s : Sys) (hr1 : (Sys.init cfg).run ops1 = some s1)
-    (hr2 : s1.run ops2 = some s) (hc : CountersOK cfg s) : CountersOK cfg s1 := by
-  obtain ⟨pkA, h1, -⟩ := system_inv cfg ops1 s1 hr1
-  exact counters_run_from cfg ops2 s1 s pkA h1 hr2 hc
-
-
 /-- looking up a packet finds the datagram that encodes it -/
 theorem enc_lookup' {pk : List Packet} {bs : List Bytes} (h : pk.map encO = bs.map some) {k : Nat} {p : Packet}
     (hp : pk[k]? = some p) : ∃ b, bs[k]? = some b ∧ p.enc = .ok b := by
@@ -2458,5 +2426,973 @@ theorem some_getD {α : Type} {o : Option α} (h : o.isSome = true) (d : α) : o
   cases o with
   | none => cases h
   | some x => rfl
+
+
+/-! ## unreliable channels: one flush assigns each sliced-message id to exactly one message -/
+
+/-- what a packet of one unreliable flush carries: `q` = the queue, `sid0` = the slice-id counter before the flush,
+    `T` = the messages that were given the ids `sid0, sid0+1, …` during the flush -/
+def UPk (ch : Nat) (q : List Bytes) (sid0 : Nat) (T : List Bytes) : Packet → Prop
+  | .smallUnreliable _ c msgs => c = ch ∧ ∀ m ∈ msgs, m ∈ q
+  | .unreliableSlice _ c sl => c = ch ∧ sid0 ≤ sl.messageId ∧ ∃ m, T[sl.messageId - sid0]? = some m ∧
+      sl.numSlices = divCeil m.length SLICE_SIZE ∧ sl.sliceIndex < sl.numSlices ∧
+      sl.payload = sliceBytes m sl.numSlices sl.sliceIndex
+  | _ => False
+
+theorem UPk.mono {ch : Nat} {q : List Bytes} {sid0 : Nat} {T T' : List Bytes} (h : T <+: T') :
+    ∀ {p : Packet}, UPk ch q sid0 T p → UPk ch q sid0 T' p
+  | .smallUnreliable .., hp => hp
+  | .unreliableSlice _ _ sl, hp => by
+    obtain ⟨h1, h2, m, h3, h4⟩ := hp
+    exact ⟨h1, h2, m, prefix_getElem? h h3, h4⟩
+  | .smallReliable .., hp => hp.elim
+  | .reliableSlice .., hp => hp.elim
+  | .ack .., hp => hp.elim
+
+structure UG (ch : Nat) (q : List Bytes) (sid0 : Nat) (T : List Bytes) (g : GPU) : Prop where
+  sid : g.slicedId = sid0 + T.length
+  big : ∀ m ∈ T, m ∈ q ∧ SLICE_SIZE < m.length
+  small : ∀ m ∈ g.small, m ∈ q
+  pk : ∀ p ∈ g.packets, UPk ch q sid0 T p
+
+theorem unrelLoop_log (ch : Nat) (q : List Bytes) (sid0 : Nat) : ∀ (q' : List Bytes) (g : GPU) (T : List Bytes),
+    (∀ m ∈ q', m ∈ q) → UG ch q sid0 T g → ∃ T', T <+: T' ∧ UG ch q sid0 T' (unrelLoop ch q' g)
+  | [], g, T, _, h => ⟨T, List.prefix_refl _, h⟩
+  | m :: rest, g, T, hq, h => by
+    have hm : m ∈ q := hq m (by simp)
+    have hrest : ∀ x ∈ rest, x ∈ q := fun x hx => hq x (List.mem_cons_of_mem _ hx)
+    rw [unrelLoop_cons]
+    split
+    · exact unrelLoop_log ch q sid0 rest _ T hrest ⟨h.sid, h.big, h.small, h.pk⟩
+    · split
+      · rename_i hbig
+        have hg : UG ch q sid0 (T ++ [m]) (unrelSliced ch m g) := by
+          refine ⟨by simp [unrelSliced, h.sid]; omega, ?_, h.small, ?_⟩
+          · intro x hx
+            rw [List.mem_append, List.mem_singleton] at hx
+            rcases hx with hx | rfl
+            · exact h.big x hx
+            · exact ⟨hm, hbig⟩
+          · intro p hp
+            simp only [unrelSliced, List.mem_append] at hp
+            rcases hp with hp | hp
+            · exact (h.pk p hp).mono (List.prefix_append _ _)
+            · obtain ⟨i, hi, sq, rfl⟩ := mem_unrelSlices hp
+              refine ⟨rfl, by dsimp only; rw [h.sid]; omega, m, ?_, rfl, by simpa using hi, rfl⟩
+              dsimp only
+              rw [h.sid, Nat.add_sub_cancel_left]
+              simp
+        obtain ⟨T', hT, hg'⟩ := unrelLoop_log ch q sid0 rest _ _ hrest hg
+        exact ⟨T', List.IsPrefix.trans (List.prefix_append _ _) hT, hg'⟩
+      · have hg : UG ch q sid0 T (unrelSmall ch m g) := by
+          unfold unrelSmall
+          split
+          · refine ⟨h.sid, h.big, ?_, ?_⟩
+            · intro x hx
+              simp only [pushUnrel, flushUnrel, List.nil_append, List.mem_singleton] at hx
+              subst hx; exact hm
+            · intro p hp
+              simp only [pushUnrel, flushUnrel, chargeU, List.mem_append, List.mem_singleton] at hp
+              rcases hp with hp | rfl
+              · exact h.pk p hp
+              · exact ⟨rfl, h.small⟩
+          · refine ⟨h.sid, h.big, ?_, h.pk⟩
+            intro x hx
+            simp only [pushUnrel, chargeU, List.mem_append, List.mem_singleton] at hx
+            rcases hx with hx | rfl
+            · exact h.small x hx
+            · exact hm
+        exact unrelLoop_log ch q sid0 rest _ T hrest hg
+
+/-- one unreliable flush: the slice-id counter advances by the number of sliced messages `T`, all taken from the
+    queue, and every packet carries queued small messages resp. a slice of the message its id was assigned to -/
+theorem unrel_getPackets_log (s : SendUnrel) (seq avail : Nat) :
+    ∃ T, (s.getPackets seq avail).1.slicedId = s.slicedId + T.length ∧ (∀ m ∈ T, m ∈ s.queue ∧ SLICE_SIZE < m.length) ∧
+      ∀ p ∈ (s.getPackets seq avail).2.1, UPk s.ch s.queue s.slicedId T p := by
+  obtain ⟨T, -, hg⟩ := unrelLoop_log s.ch s.queue s.slicedId s.queue ⟨[], [], 0, seq, avail, s.slicedId, s.mem⟩ []
+    (fun _ h => h) ⟨by simp, fun _ h => (by cases h), fun _ h => (by cases h), fun _ h => (by cases h)⟩
+  rw [SendUnrel.getPackets_eq]
+  dsimp only
+  generalize unrelLoop s.ch s.queue ⟨[], [], 0, seq, avail, s.slicedId, s.mem⟩ = g at hg
+  refine ⟨T, ?_, hg.big, ?_⟩
+  · unfold finishUnrel; split <;> exact hg.sid
+  · intro p hp
+    unfold finishUnrel at hp
+    split at hp
+    · exact hg.pk p hp
+    · simp only [List.mem_append, List.mem_singleton] at hp
+      rcases hp with hp | rfl
+      · exact hg.pk p hp
+      · exact ⟨rfl, hg.small⟩
+
+/-! ### wire: unreliable packets that encode are well formed -/
+
+theorem encSmallUnrel_bounds : ∀ (msgs : List Bytes) (b : Bytes), encSmallUnrel msgs = .ok b → SmallUnrelWF msgs
+  | [], _, _ => fun _ h => by cases h
+  | m :: rest, b, h => by
+    simp only [encSmallUnrel] at h
+    obtain ⟨a, h1, h⟩ := res_bind_ok h
+    obtain ⟨r, h2, h⟩ := res_bind_ok h
+    intro x hx
+    simp only [List.mem_cons] at hx
+    rcases hx with rfl | hx
+    · exact (putVarint_eq_ok h1).1
+    · exact encSmallUnrel_bounds rest r h2 x hx
+
+/-- an unreliable small-message packet that encodes, on a byte-sized channel id and with a 16-bit message count, is
+    well formed (so the peer decodes exactly it) -/
+theorem enc_smallUnrel_wf {seq ch : Nat} {msgs : List Bytes} {b : Bytes}
+    (he : (Packet.smallUnreliable seq ch msgs).enc = .ok b) (hch : ch < 256) (hl : msgs.length < 65536) :
+    (Packet.smallUnreliable seq ch msgs).WF := by
+  simp only [Packet.enc] at he
+  obtain ⟨s, h1, he⟩ := res_bind_ok he
+  obtain ⟨body, h2, he⟩ := res_bind_ok he
+  exact ⟨(putVarint_eq_ok h1).1, hch, hl, encSmallUnrel_bounds msgs body h2⟩
+
+theorem enc_unrelSlice_wf {seq ch : Nat} {sl : Slice} {b : Bytes}
+    (he : (Packet.unreliableSlice seq ch sl).enc = .ok b) (hch : ch < 256) (hn1 : 1 ≤ sl.numSlices)
+    (hn2 : sl.numSlices ≤ MAX_NUM_SLICES) : (Packet.unreliableSlice seq ch sl).WF := by
+  simp only [Packet.enc] at he
+  obtain ⟨s, h1, he⟩ := res_bind_ok he
+  obtain ⟨body, h2, he⟩ := res_bind_ok he
+  simp only [encSlice] at h2
+  obtain ⟨a, g1, h2⟩ := res_bind_ok h2
+  obtain ⟨b', g2, h2⟩ := res_bind_ok h2
+  obtain ⟨c, g3, h2⟩ := res_bind_ok h2
+  obtain ⟨d, g4, h2⟩ := res_bind_ok h2
+  exact ⟨(putVarint_eq_ok h1).1, hch, (putVarint_eq_ok g1).1, (putVarint_eq_ok g2).1, hn1, hn2, (putVarint_eq_ok g4).1⟩
+
+/-! ## unreliable channels, sender side -/
+
+/-- what a packet may carry on the unreliable channels: `SU ch` = every message offered to unreliable channel `ch`,
+    `Lg ch` = the messages that were assigned the sliced-message ids 0, 1, 2, … of that channel (a fresh id per
+    sliced message, so all slices carrying one id belong to one message); `K` = valid channel ids -/
+def UGen (K : Nat → Prop) (SU Lg : Nat → List Bytes) : Packet → Prop
+  | .smallUnreliable _ ch msgs => K ch ∧ msgs.length < 65536 ∧ ∀ m ∈ msgs, m ∈ SU ch
+  | .unreliableSlice _ ch sl => K ch ∧ ∃ m, (Lg ch)[sl.messageId]? = some m ∧ m ∈ SU ch ∧ m.length > SLICE_SIZE ∧
+      sl.numSlices = divCeil m.length SLICE_SIZE ∧ sl.sliceIndex < sl.numSlices ∧
+      sl.payload = sliceBytes m sl.numSlices sl.sliceIndex
+  | _ => True
+
+theorem UGen.mono {K : Nat → Prop} {SU SU' Lg Lg' : Nat → List Bytes} (hS : ∀ ch, SU ch <+: SU' ch)
+    (hL : ∀ ch, Lg ch <+: Lg' ch) : ∀ {p : Packet}, UGen K SU Lg p → UGen K SU' Lg' p
+  | .smallUnreliable _ ch msgs, hp => ⟨hp.1, hp.2.1, fun m hm => (hS ch).subset (hp.2.2 m hm)⟩
+  | .unreliableSlice _ ch sl, hp => by
+    obtain ⟨hk, m, h1, h2, h3⟩ := hp
+    exact ⟨hk, m, prefix_getElem? (hL ch) h1, (hS ch).subset h2, h3⟩
+  | .smallReliable .., _ => trivial
+  | .reliableSlice .., _ => trivial
+  | .ack .., _ => trivial
+
+/-- unreliable send channel `sU` (registered under id `ch`) against the logs -/
+structure ChanU (K : Nat → Prop) (SU Lg : List Bytes) (ch : Nat) (sU : SendUnrel) : Prop where
+  key : K ch
+  chid : sU.ch = ch
+  sid : sU.slicedId = Lg.length
+  queue : ∀ m ∈ sU.queue, m ∈ SU
+  log : ∀ m ∈ Lg, m ∈ SU ∧ SLICE_SIZE < m.length
+
+theorem chanU_send {K : Nat → Prop} {SU Lg : List Bytes} {ch : Nat} {sU : SendUnrel} (h : ChanU K SU Lg ch sU) (m : Bytes) :
+    ChanU K (SU ++ [m]) Lg ch (sU.sendMessage m) := by
+  have hsub : ∀ x, x ∈ SU → x ∈ SU ++ [m] := fun x hx => List.mem_append_left _ hx
+  unfold SendUnrel.sendMessage
+  split
+  · exact ⟨h.key, h.chid, h.sid, fun x hx => hsub x (h.queue x hx), fun x hx => ⟨hsub x (h.log x hx).1, (h.log x hx).2⟩⟩
+  · refine ⟨h.key, h.chid, h.sid, ?_, fun x hx => ⟨hsub x (h.log x hx).1, (h.log x hx).2⟩⟩
+    intro x hx
+    dsimp only at hx
+    rw [List.mem_append, List.mem_singleton] at hx
+    rcases hx with hx | rfl
+    · exact hsub x (h.queue x hx)
+    · simp
+
+theorem chanU_mono {K : Nat → Prop} {SU Lg : List Bytes} {ch : Nat} {sU : SendUnrel} (h : ChanU K SU Lg ch sU) (m : Bytes) :
+    ChanU K (SU ++ [m]) Lg ch sU :=
+  ⟨h.key, h.chid, h.sid, fun x hx => List.mem_append_left _ (h.queue x hx),
+   fun x hx => ⟨List.mem_append_left _ (h.log x hx).1, (h.log x hx).2⟩⟩
+
+/-- one unreliable flush against the logs: the slice-id log grows by the sliced messages `T` of this flush -/
+theorem chanU_getPackets {K : Nat → Prop} (SU Lg : Nat → List Bytes) {ch : Nat} {sU : SendUnrel}
+    (h : ChanU K (SU ch) (Lg ch) ch sU) (seq avail : Nat) :
+    ∃ T, ChanU K (SU ch) (Lg ch ++ T) ch (sU.getPackets seq avail).1 ∧
+      ∀ Lg' : Nat → List Bytes, Lg' ch = Lg ch ++ T → ∀ p ∈ (sU.getPackets seq avail).2.1, UGen K SU Lg' p := by
+  obtain ⟨T, h1, h2, h3⟩ := unrel_getPackets_log sU seq avail
+  refine ⟨T, ⟨h.key, ?_, ?_, ?_, ?_⟩, ?_⟩
+  · rw [SendUnrel.getPackets_eq]; exact h.chid
+  · rw [h1, h.sid]; simp
+  · rw [SendUnrel.getPackets_eq]; intro m hm; cases hm
+  · intro m hm
+    rw [List.mem_append] at hm
+    rcases hm with hm | hm
+    · exact h.log m hm
+    · exact ⟨h.queue m (h2 m hm).1, (h2 m hm).2⟩
+  · intro Lg' hL p hp
+    have hu := h3 p hp
+    have hok := (SendUnrel.getPackets_emitted (s := sU) (seq := seq) (avail := avail) rfl).2 p hp
+    cases p with
+    | smallUnreliable sq c msgs =>
+      obtain ⟨rfl, hm⟩ := hu
+      obtain ⟨-, hsum, -⟩ := hok
+      have := unrelSerSum_ge msgs
+      refine ⟨by rw [h.chid]; exact h.key, by unfold SLICE_SIZE at hsum; omega, ?_⟩
+      intro m hmm
+      rw [h.chid]; exact h.queue m (hm m hmm)
+    | unreliableSlice sq c sl =>
+      obtain ⟨rfl, hge, m, hT, hn, hi, hpay⟩ := hu
+      have hmT : m ∈ T := List.mem_of_getElem? hT
+      refine ⟨by rw [h.chid]; exact h.key, m, ?_, by rw [h.chid]; exact h.queue m (h2 m hmT).1, (h2 m hmT).2, hn, hi, hpay⟩
+      rw [h.chid, hL, List.getElem?_append_right (by rw [← h.sid]; exact hge), ← h.sid]
+      exact hT
+    | smallReliable _ _ _ => exact hu.elim
+    | reliableSlice _ _ _ => exact hu.elim
+    | ack _ _ => exact hu.elim
+
+theorem rel_only_rel (s : SendRel) (seq avail now : Nat) : ∀ p ∈ (s.getPackets seq avail now).2.1, isRel p = true := by
+  intro p hp
+  have := SendRel.getPackets_genuine (s := s) (seq := seq) (avail := avail) (now := now) rfl p hp
+  cases p with
+  | ack _ _ => exact this.elim
+  | smallReliable _ _ _ => rfl
+  | reliableSlice _ _ _ => rfl
+  | smallUnreliable _ _ _ => exact this.elim
+  | unreliableSlice _ _ _ => exact this.elim
+
+theorem uGen_of_rel {K : Nat → Prop} {SU Lg : Nat → List Bytes} {p : Packet} (h : isRel p = true) : UGen K SU Lg p := by
+  cases p with
+  | smallReliable _ _ _ => trivial
+  | reliableSlice _ _ _ => trivial
+  | ack _ _ => trivial
+  | smallUnreliable _ _ _ => cases h
+  | unreliableSlice _ _ _ => cases h
+
+/-- the channel loop against the logs -/
+theorem chanLoop_U (K : Nat → Prop) (SU : Nat → List Bytes) (now : Nat) :
+    ∀ (ord : List (Bool × Nat)) (sr : SMap SendRel) (su : SMap SendUnrel) (pk : List Packet) (seq avail : Nat)
+      (sr' : SMap SendRel) (su' : SMap SendUnrel) (pk' : List Packet) (seq' avail' : Nat) (Lg : Nat → List Bytes),
+      Conn.chanLoop now ord (sr, su, pk, seq, avail) = .ok (sr', su', pk', seq', avail') →
+      (∀ ch sU, SMap.find? su ch = some sU → ChanU K (SU ch) (Lg ch) ch sU) → (∀ p ∈ pk, UGen K SU Lg p) →
+      ∃ Lg' : Nat → List Bytes, (∀ ch, Lg ch <+: Lg' ch) ∧
+        (∀ ch sU, SMap.find? su' ch = some sU → ChanU K (SU ch) (Lg' ch) ch sU) ∧ ∀ p ∈ pk', UGen K SU Lg' p
+  | [], sr, su, pk, seq, avail, sr', su', pk', seq', avail', Lg, h, hc, hq => by
+    simp only [Conn.chanLoop, Res.ok.injEq, Prod.mk.injEq] at h
+    obtain ⟨rfl, rfl, rfl, rfl, rfl⟩ := h
+    exact ⟨Lg, fun _ => List.prefix_refl _, hc, hq⟩
+  | (true, ch) :: rest, sr, su, pk, seq, avail, sr', su', pk', seq', avail', Lg, h, hc, hq => by
+    rw [chanLoop_rel_step] at h
+    split at h
+    · cases h
+    · rename_i s hf
+      refine chanLoop_U K SU now rest _ _ _ _ _ _ _ _ _ _ Lg h hc ?_
+      intro p hp
+      rw [List.mem_append] at hp
+      rcases hp with hp | hp
+      · exact hq p hp
+      · exact uGen_of_rel (rel_only_rel s seq avail now p hp)
+  | (false, ch) :: rest, sr, su, pk, seq, avail, sr', su', pk', seq', avail', Lg, h, hc, hq => by
+    rw [chanLoop_unrel_step] at h
+    split at h
+    · cases h
+    · rename_i s hf
+      obtain ⟨T, hT1, hT2⟩ := chanU_getPackets SU Lg (hc ch s hf) seq avail
+      have hext : ∀ c, Lg c <+: (fun c => if c = ch then Lg ch ++ T else Lg c) c := by
+        intro c
+        dsimp only
+        split
+        · rename_i e; subst e; exact List.prefix_append _ _
+        · exact List.prefix_refl _
+      have hc1 : ∀ c sU, SMap.find? (SMap.insert su ch (s.getPackets seq avail).1) c = some sU →
+          ChanU K (SU c) ((fun c => if c = ch then Lg ch ++ T else Lg c) c) c sU := by
+        intro c sU hsU
+        rw [SMap.find?_insert] at hsU
+        split at hsU
+        · rename_i e; subst e; cases hsU
+          simp only [↓reduceIte]; exact hT1
+        · rename_i e
+          have : ¬ c = ch := fun e' => e e'.symm
+          simp only [this, ↓reduceIte]
+          exact hc c sU hsU
+      have hq1 : ∀ p ∈ pk ++ (s.getPackets seq avail).2.1, UGen K SU (fun c => if c = ch then Lg ch ++ T else Lg c) p := by
+        intro p hp
+        rw [List.mem_append] at hp
+        rcases hp with hp | hp
+        · exact (hq p hp).mono (fun _ => List.prefix_refl _) hext
+        · exact hT2 _ (by simp) p hp
+      obtain ⟨Lg', e1, e2, e3⟩ := chanLoop_U K SU now rest _ _ _ _ _ _ _ _ _ _
+        (fun c => if c = ch then Lg ch ++ T else Lg c) h hc1 hq1
+      exact ⟨Lg', fun c => List.IsPrefix.trans (hext c) (e1 c), e2, e3⟩
+
+/-- one connection-level flush against the logs -/
+theorem flush_U (K : Nat → Prop) (SU Lg : Nat → List Bytes) {c c' : Conn} {bs : List Bytes}
+    (h : c.getPacketsToSend = .ok (c', bs))
+    (hc : ∀ ch sU, SMap.find? c.sendUnrel ch = some sU → ChanU K (SU ch) (Lg ch) ch sU) :
+    ∃ Lg' : Nat → List Bytes, (∀ ch, Lg ch <+: Lg' ch) ∧
+      (∀ ch sU, SMap.find? c'.sendUnrel ch = some sU → ChanU K (SU ch) (Lg' ch) ch sU) ∧ ∀ p ∈ flushPk c, UGen K SU Lg' p := by
+  rcases getPacketsToSend_unfold h with ⟨hd, hc', hbs⟩ | ⟨hd, sr, su, pk0, seq0, avail, sent, hl, hrec, hser⟩
+  · have : flushPk c = [] := by unfold flushPk; rw [if_pos hd]
+    rw [this, hc']
+    exact ⟨Lg, fun _ => List.prefix_refl _, hc, fun _ hp => (by cases hp)⟩
+  · obtain ⟨Lg', e1, e2, e3⟩ := chanLoop_U K SU c.now _ _ _ _ _ _ _ _ _ _ _ Lg hl hc (fun _ hp => by cases hp)
+    have hq : ∀ p ∈ (if c.pendingAcks.isEmpty then pk0 else pk0 ++ [Packet.ack seq0 c.pendingAcks]), UGen K SU Lg' p := by
+      intro p hp
+      rcases mem_flushPk_cases hp with hp | rfl
+      · exact e3 p hp
+      · trivial
+    rcases hser with ⟨hok, rfl⟩ | ⟨e, herr, rfl, rfl⟩
+    · have hf : flushPk c = (if c.pendingAcks.isEmpty then pk0 else pk0 ++ [Packet.ack seq0 c.pendingAcks]) := by
+        unfold flushPk; rw [hd]; simp only [Bool.false_eq_true, ↓reduceIte, hl, hok]
+      rw [hf]
+      exact ⟨Lg', e1, e2, hq⟩
+    · have hf : flushPk c = [] := by
+        unfold flushPk; rw [hd]; simp only [Bool.false_eq_true, ↓reduceIte, hl, herr]
+      rw [hf, (Conn.disconnectWith_same _ _).1.2.1]
+      exact ⟨Lg', e1, e2, fun _ hp => (by cases hp)⟩
+
+/-- `send_message`, as seen by the unreliable send channels -/
+theorem sendMessage_casesU {c c' : Conn} {ch : Nat} {m : Bytes} (h : c.sendMessage ch m = .ok c') :
+    (offeredU c ch = true ∧ ∃ sU, SMap.find? c.sendUnrel ch = some sU ∧
+        c'.sendUnrel = SMap.insert c.sendUnrel ch (sU.sendMessage m)) ∨
+    (offeredU c ch = false ∧ c'.sendUnrel = c.sendUnrel) := by
+  unfold Conn.sendMessage at h
+  split at h
+  · rename_i hd
+    cases h
+    exact Or.inr ⟨by simp [offeredU, hd], rfl⟩
+  · rename_i hd
+    split at h
+    · rename_i s hf
+      have hoff : offeredU c ch = false := by simp [offeredU, hf]
+      split at h
+      · cases h; exact Or.inr ⟨hoff, rfl⟩
+      · cases h; exact Or.inr ⟨hoff, (c.disconnectWith_same _).1.2.1⟩
+    · rename_i hf
+      split at h
+      · rename_i sU hfu
+        cases h
+        exact Or.inl ⟨by simp [offeredU, hd, hf, hfu], sU, hfu, rfl⟩
+      · cases h
+
+/-! ## unreliable channels, receiver side -/
+
+/-- `process_packet`, as seen by the unreliable receive channels -/
+theorem processPacket_recvU {c c' : Conn} {bytes : Bytes} (hinv : c.SendInv) (h : c.processPacket bytes = .ok c') :
+    c'.isDisconnected = true ∨
+    (c.isDisconnected = false ∧ ∃ p, Packet.fromBytes bytes = .ok p ∧
+      match p with
+      | .smallUnreliable _ ch msgs => ∃ r, SMap.find? c.recvUnrel ch = some r ∧
+          c'.recvUnrel = SMap.insert c.recvUnrel ch (msgs.foldl RecvUnrel.processMessage r)
+      | .unreliableSlice _ ch sl => ∃ r r', SMap.find? c.recvUnrel ch = some r ∧ r.processSlice sl c.now = .ok r' ∧
+          c'.recvUnrel = SMap.insert c.recvUnrel ch r'
+      | _ => c'.recvUnrel = c.recvUnrel) := by
+  cases hd : c.isDisconnected with
+  | true =>
+    left
+    unfold Conn.processPacket at h
+    rw [if_pos hd] at h; cases h; exact hd
+  | false =>
+    cases hp : Packet.fromBytes bytes with
+    | error e =>
+      left
+      unfold Conn.processPacket at h
+      rw [hd, hp] at h
+      simp only [Bool.false_eq_true, ↓reduceIte] at h
+      cases h
+      exact disconnectWith_isDisconnected _ _
+    | ok p =>
+      cases p with
+      | ack aseq ranges =>
+        obtain ⟨L, c2, -, e, -, eff, -, -⟩ := SI.Conn.processPacket_ack_spec hinv hd hp
+        rw [e] at h; cases h
+        exact Or.inr ⟨rfl, _, rfl, eff.frame.2.1⟩
+      | smallReliable sq ch msgs =>
+        unfold Conn.processPacket at h
+        rw [hd, hp] at h
+        simp only [Bool.false_eq_true, ↓reduceIte] at h
+        split at h
+        · cases h; exact Or.inl (disconnectWith_isDisconnected _ _)
+        · split at h
+          · cases h; exact Or.inr ⟨rfl, _, rfl, rfl⟩
+          · cases h; exact Or.inl (disconnectWith_isDisconnected _ _)
+          · cases h
+      | reliableSlice sq ch sl =>
+        unfold Conn.processPacket at h
+        rw [hd, hp] at h
+        simp only [Bool.false_eq_true, ↓reduceIte] at h
+        split at h
+        · cases h; exact Or.inl (disconnectWith_isDisconnected _ _)
+        · split at h
+          · cases h; exact Or.inr ⟨rfl, _, rfl, rfl⟩
+          · cases h; exact Or.inl (disconnectWith_isDisconnected _ _)
+          · cases h
+      | smallUnreliable sq ch msgs =>
+        unfold Conn.processPacket at h
+        rw [hd, hp] at h
+        simp only [Bool.false_eq_true, ↓reduceIte] at h
+        split at h
+        · cases h; exact Or.inl (disconnectWith_isDisconnected _ _)
+        · rename_i r hf
+          cases h
+          exact Or.inr ⟨rfl, _, rfl, r, hf, rfl⟩
+      | unreliableSlice sq ch sl =>
+        unfold Conn.processPacket at h
+        rw [hd, hp] at h
+        simp only [Bool.false_eq_true, ↓reduceIte] at h
+        split at h
+        · cases h; exact Or.inl (disconnectWith_isDisconnected _ _)
+        · rename_i r hf
+          split at h
+          · rename_i r' hps
+            cases h; exact Or.inr ⟨rfl, _, rfl, r, r', hf, hps, rfl⟩
+          · cases h; exact Or.inl (disconnectWith_isDisconnected _ _)
+          · cases h
+
+/-- `receive_message` served by an unreliable channel -/
+theorem receiveMessage_casesU {c c' : Conn} {ch : Nat} {m : Option Bytes} (h : c.receiveMessage ch = .ok (c', m))
+    (hd : c.isDisconnected = false) (hf : SMap.find? c.recvRel ch = none) :
+    ∃ r r', SMap.find? c.recvUnrel ch = some r ∧ r.receive = .ok (r', m) ∧
+      c'.recvUnrel = SMap.insert c.recvUnrel ch r' ∧ c'.status = c.status := by
+  unfold Conn.receiveMessage at h
+  rw [hd, hf] at h
+  simp only [Bool.false_eq_true, ↓reduceIte] at h
+  split at h
+  · rename_i r hfu
+    cases hr : r.receive with
+    | ok x =>
+      obtain ⟨r', m'⟩ := x
+      rw [hr] at h
+      simp only [Res.bind_ok, Res.pure_eq, Res.ok.injEq, Prod.mk.injEq] at h
+      obtain ⟨rfl, rfl⟩ := h
+      exact ⟨r, r', hfu, hr, rfl, rfl⟩
+    | err e => exact e.elim
+    | panic s => rw [hr] at h; cases h
+  · cases h
+
+theorem discardAll_find (now : Nat) : ∀ (m m' : SMap RecvUnrel), Conn.discardAll now m = .ok m' →
+    ∀ ch r', SMap.find? m' ch = some r' → ∃ r, SMap.find? m ch = some r ∧ r.discardOld now = .ok r'
+  | [], m', h, ch, r', hf => by
+    simp only [Conn.discardAll, Res.ok.injEq] at h; subst h
+    simp [SMap.find?] at hf
+  | (k, r) :: rest, m', h, ch, r', hf => by
+    simp only [Conn.discardAll] at h
+    cases h1 : r.discardOld now with
+    | ok r1 =>
+      rw [h1] at h; simp only [Res.bind_ok] at h
+      cases h2 : Conn.discardAll now rest with
+      | ok rest' =>
+        rw [h2] at h; simp only [Res.bind_ok, Res.pure_eq, Res.ok.injEq] at h
+        subst h
+        simp only [SMap.find?] at hf ⊢
+        split at hf
+        · rename_i e
+          cases hf
+          rw [if_pos e]; exact ⟨r, rfl, h1⟩
+        · rename_i e
+          rw [if_neg e]
+          exact discardAll_find now rest rest' h2 ch r' hf
+      | err e => exact e.elim
+      | panic s => rw [h2] at h; cases h
+    | err e => exact e.elim
+    | panic s => rw [h1] at h; cases h
+
+theorem update_recvU {c c' : Conn} {dt : Nat} (h : c.update dt = .ok c') :
+    Conn.discardAll (c.now + dt) c.recvUnrel = .ok c'.recvUnrel := by
+  unfold Conn.update at h
+  dsimp only at h
+  cases hd : Conn.discardAll (c.now + dt) c.recvUnrel with
+  | ok ru => rw [hd] at h; simp only [Res.bind_ok, Res.pure_eq] at h; cases h; rfl
+  | err e => exact e.elim
+  | panic s => rw [hd] at h; cases h
+
+open DataPath in
+/-- the DataPath invariant of one unreliable receive channel, with `obtained` as ghost output and some ghost record
+    `seen` of the slices handed over so far -/
+def ChanBU (S Lg : List Bytes) (r : RecvUnrel) (o : List Bytes) : Prop :=
+  ∃ seen, UInv S (fun id => Lg[id]?) ⟨r, o, seen, false⟩
+
+open DataPath in
+theorem uInv_mono {S S' Lg Lg' : List Bytes} {st : URunSt} (hS : S <+: S') (hL : Lg <+: Lg')
+    (h : UInv S (fun id => Lg[id]?) st) : UInv S' (fun id => Lg'[id]?) st := by
+  refine ⟨fun x hx => hS.subset (h.msgs x hx), h.wfS, ?_, h.marks, fun x hx => hS.subset (h.obt x hx)⟩
+  intro id c hc
+  obtain ⟨m, h1, h2, h3⟩ := h.slices id c hc
+  exact ⟨m, prefix_getElem? hL h1, hS.subset h2, h3⟩
+
+theorem chanBU_mono {S S' Lg Lg' : List Bytes} {r : RecvUnrel} {o : List Bytes} (hS : S <+: S') (hL : Lg <+: Lg')
+    (h : ChanBU S Lg r o) : ChanBU S' Lg' r o := by
+  obtain ⟨seen, hs⟩ := h
+  exact ⟨seen, uInv_mono hS hL hs⟩
+
+open DataPath in
+theorem chanBU_new (S Lg : List Bytes) (ch maxMem : Nat) : ChanBU S Lg (RecvUnrel.new ch maxMem) [] :=
+  ⟨[], uinv_init S _ ch maxMem⟩
+
+open DataPath in
+theorem chanBU_msgs {S Lg : List Bytes} {r : RecvUnrel} {o : List Bytes} (h : ChanBU S Lg r o) (msgs : List Bytes)
+    (hg : ∀ m ∈ msgs, m ∈ S) : ChanBU S Lg (msgs.foldl RecvUnrel.processMessage r) o := by
+  obtain ⟨seen, hs⟩ := h
+  refine ⟨seen, ?_⟩
+  rw [← foldl_ustep_msgs msgs r o seen]
+  refine foldl_inv ustep (UInv S _) (GenuineU S _) (ustep_inv S _) _ _ hs ?_
+  intro op hop
+  obtain ⟨m, hm, rfl⟩ := List.mem_map.mp hop
+  exact hg m hm
+
+open DataPath in
+theorem chanBU_slice {S Lg : List Bytes} {r r' : RecvUnrel} {o : List Bytes} (h : ChanBU S Lg r o) {sl : Slice} {now : Nat}
+    (hg : GenuineU S (fun id => Lg[id]?) (.slice sl now)) (hp : r.processSlice sl now = .ok r') : ChanBU S Lg r' o := by
+  obtain ⟨seen, hs⟩ := h
+  have := ustep_inv S _ _ (.slice sl now) hs hg
+  unfold ustep at this
+  rw [if_neg (by simp)] at this
+  dsimp only at this
+  rw [hp] at this
+  exact ⟨_, this⟩
+
+open DataPath in
+theorem chanBU_discard {S Lg : List Bytes} {r r' : RecvUnrel} {o : List Bytes} (h : ChanBU S Lg r o) {now : Nat}
+    (hp : r.discardOld now = .ok r') : ChanBU S Lg r' o := by
+  obtain ⟨seen, hs⟩ := h
+  have := ustep_inv S _ _ (.discard now) hs trivial
+  unfold ustep at this
+  rw [if_neg (by simp)] at this
+  dsimp only at this
+  rw [hp] at this
+  exact ⟨_, this⟩
+
+open DataPath in
+theorem chanBU_recv {S Lg : List Bytes} {r r' : RecvUnrel} {o : List Bytes} {m : Option Bytes} (h : ChanBU S Lg r o)
+    (hp : r.receive = .ok (r', m)) : ChanBU S Lg r' (o ++ m.toList) := by
+  obtain ⟨seen, hs⟩ := h
+  have := ustep_inv S _ _ .recv hs trivial
+  unfold ustep at this
+  rw [if_neg (by simp)] at this
+  dsimp only at this
+  rw [hp] at this
+  cases m with
+  | none => exact ⟨_, by simpa using this⟩
+  | some x => exact ⟨_, by simpa using this⟩
+
+open DataPath in
+theorem chanBU_obt {S Lg : List Bytes} {r : RecvUnrel} {o : List Bytes} (h : ChanBU S Lg r o) : ∀ x ∈ o, x ∈ S := by
+  obtain ⟨seen, hs⟩ := h
+  exact hs.obt
+
+/-! ## system invariants, layer U: the unreliable channels end to end -/
+
+def KCfg (cfg : Cfg) (ch : Nat) : Prop := ∃ c ∈ cfg.send, c.id = ch
+
+/-- sender part (unconditional), relative to the ghost slice-id logs `Lg` -/
+structure InvUA (cfg : Cfg) (s : Sys) (pkA : List Packet) (Lg : Nat → List Bytes) : Prop where
+  chanU : ∀ ch sU, SMap.find? s.a.sendUnrel ch = some sU → ChanU (KCfg cfg) (s.submittedU ch) (Lg ch) ch sU
+  genU : ∀ p ∈ pkA, UGen (KCfg cfg) s.submittedU Lg p
+
+/-- receiver part (under `CountersOK`): while B is live every unreliable receive channel that `receive_message`
+    actually serves (no reliable channel of the same id) satisfies the DataPath invariant; and the end-to-end
+    conclusion -/
+structure InvUB (cfg : Cfg) (s : Sys) (Lg : Nat → List Bytes) : Prop where
+  recvBU : s.b.isDisconnected = false → ∀ ch r, SMap.find? s.b.recvUnrel ch = some r → RelKind cfg ch = none →
+    ChanBU (s.submittedU ch) (Lg ch) r (s.obtained ch)
+  conclU : ∀ ch, RelKind cfg ch = none → ∀ x ∈ s.obtained ch, x ∈ s.submittedU ch
+
+theorem invUA_init (cfg : Cfg) : InvUA cfg (Sys.init cfg) [] (fun _ => []) := by
+  refine ⟨?_, fun _ h => (by cases h)⟩
+  intro ch sU hf
+  simp only [Sys.init, Conn.fromChannels] at hf
+  rcases SI.foldl_insert_find (fun c : ChanCfg => c.id) (fun c => SendUnrel.new c.id c.maxMem) _ _ ch sU hf with h | ⟨c, hc, h1, h2⟩
+  · cases h
+  · subst h2
+    exact ⟨⟨c, (List.mem_filter.mp hc).1, h1⟩, h1, rfl, fun _ h => (by cases h), fun _ h => (by cases h)⟩
+
+theorem invUB_init (cfg : Cfg) : InvUB cfg (Sys.init cfg) (fun _ => []) := by
+  refine ⟨?_, fun _ _ _ h => (by cases h)⟩
+  intro _ ch r hf _
+  simp only [Sys.init, Conn.fromChannels] at hf
+  rcases SI.foldl_insert_find (fun c : ChanCfg => c.id) (fun c => RecvUnrel.new c.id c.maxMem) _ _ ch r hf with h | ⟨c, -, -, h2⟩
+  · cases h
+  · subst h2; exact chanBU_new _ _ _ _
+
+theorem processPacket_sendUnrel {c c' : Conn} {bytes : Bytes} (hinv : c.SendInv) (h : c.processPacket bytes = .ok c') :
+    c'.sendUnrel = c.sendUnrel := by
+  rcases SI.Conn.processPacket_cases h with ⟨hs1, -, -⟩ | ⟨p, -, -, hs1, -⟩ | ⟨aseq, ranges, L, hd, hp, -, -⟩
+  · exact hs1.2.1
+  · exact hs1.2.1
+  · obtain ⟨L', c2, -, e, -, eff, -, -⟩ := SI.Conn.processPacket_ack_spec hinv hd hp
+    rw [e] at h; cases h
+    exact eff.frame.2.2.2.2.2.2.2
+
+theorem invUA_step {cfg : Cfg} {s s' : Sys} {pkA : List Packet} {op : SysOp} {Lg : Nat → List Bytes}
+    (h1 : Inv1 cfg s pkA) (hU : InvUA cfg s pkA Lg) (hs : s.step op = some s') :
+    ∃ Lg' : Nat → List Bytes, (∀ ch, Lg ch <+: Lg' ch) ∧ InvUA cfg s' (nextPk s op pkA) Lg' := by
+  have hrefl : ∀ ch, Lg ch <+: Lg ch := fun _ => List.prefix_refl _
+  cases op with
+  | sendA ch m =>
+    simp only [Sys.step] at hs
+    split at hs
+    · rename_i a' hm
+      cases hs
+      refine ⟨Lg, hrefl, ?_⟩
+      rcases sendMessage_casesU hm with ⟨hoff, sU, hf, hsu⟩ | ⟨hoff, hsu⟩
+      · constructor
+        · intro ch2 sU2 hf2
+          dsimp only at hf2 ⊢
+          rw [hoff]
+          simp only [↓reduceIte]
+          rw [hsu, SMap.find?_insert] at hf2
+          split at hf2
+          · rename_i e
+            subst e
+            cases hf2
+            rw [push_same]
+            exact chanU_send (hU.chanU ch sU hf) m
+          · rename_i e
+            rw [push_other _ _ (fun e' => e e'.symm)]
+            exact hU.chanU ch2 sU2 hf2
+        · intro p hp
+          dsimp only
+          rw [hoff]
+          simp only [↓reduceIte]
+          exact (hU.genU p hp).mono (push_prefix _ _ _) hrefl
+      · constructor
+        · dsimp only
+          rw [hoff, hsu]
+          exact hU.chanU
+        · dsimp only
+          rw [hoff]
+          exact hU.genU
+    · cases hs
+  | recvB ch =>
+    simp only [Sys.step] at hs
+    split at hs
+    · cases hs; exact ⟨Lg, hrefl, hU.chanU, hU.genU⟩
+    · cases hs; exact ⟨Lg, hrefl, hU.chanU, hU.genU⟩
+    · cases hs
+  | updA dt =>
+    simp only [Sys.step] at hs
+    split at hs
+    · rename_i a' hm
+      cases hs
+      exact ⟨Lg, hrefl, by dsimp only; rw [(SI.Conn.update_spec hm).2.1]; exact hU.chanU, hU.genU⟩
+    · cases hs
+  | updB dt =>
+    simp only [Sys.step] at hs
+    split at hs
+    · cases hs; exact ⟨Lg, hrefl, hU.chanU, hU.genU⟩
+    · cases hs
+  | flushA =>
+    simp only [Sys.step] at hs
+    split at hs
+    · rename_i a' bs hm
+      cases hs
+      obtain ⟨Lg', e1, e2, e3⟩ := flush_U (KCfg cfg) s.submittedU Lg hm hU.chanU
+      refine ⟨Lg', e1, e2, ?_⟩
+      intro p hp
+      simp only [nextPk, List.mem_append] at hp
+      rcases hp with hp | hp
+      · exact (hU.genU p hp).mono (fun _ => List.prefix_refl _) e1
+      · exact e3 p hp
+    · cases hs
+  | flushB =>
+    simp only [Sys.step] at hs
+    split at hs
+    · cases hs; exact ⟨Lg, hrefl, hU.chanU, hU.genU⟩
+    · cases hs
+  | deliverToB k =>
+    simp only [Sys.step] at hs
+    split at hs
+    · cases hs
+    · split at hs
+      · cases hs; exact ⟨Lg, hrefl, hU.chanU, hU.genU⟩
+      · cases hs
+  | deliverToA k =>
+    simp only [Sys.step] at hs
+    split at hs
+    · cases hs
+    · split at hs
+      · rename_i a' hm
+        cases hs
+        exact ⟨Lg, hrefl, by dsimp only; rw [processPacket_sendUnrel h1.invA.1 hm]; exact hU.chanU, hU.genU⟩
+      · cases hs
+
+/-- what B decodes from a datagram of `outA` is genuine on the unreliable channels too -/
+theorem decoded_genuineU {cfg : Cfg} {s : Sys} {pkA : List Packet} {Lg : Nat → List Bytes} (h1 : Inv1 cfg s pkA)
+    (hU : InvUA cfg s pkA Lg) (hc : CountersOK cfg s) {k : Nat} {bytes : Bytes} (hb : s.outA[k]? = some bytes)
+    {p' : Packet} (hd : Packet.fromBytes bytes = .ok p') : UGen (KCfg cfg) s.submittedU Lg p' := by
+  obtain ⟨p, hp, he⟩ := enc_lookup h1.encA hb
+  have hmem : p ∈ pkA := List.mem_of_getElem? hp
+  obtain ⟨-, htag⟩ := fromBytes_of_enc he hd
+  have hg := hU.genU p hmem
+  cases p' with
+  | smallReliable _ _ _ => trivial
+  | reliableSlice _ _ _ => trivial
+  | ack _ _ => trivial
+  | smallUnreliable sq' ch' msgs' =>
+    cases p with
+    | smallUnreliable sq ch msgs =>
+      obtain ⟨⟨c, hcm, rfl⟩, hl, -⟩ := hg
+      have hw := enc_smallUnrel_wf he (hc.chan c hcm) hl
+      have := fromBytes_of_enc_wf hw he hd
+      rw [this]; exact hU.genU _ hmem
+    | smallReliable _ _ _ => simp only [tagByte] at htag; exact absurd htag (by decide)
+    | reliableSlice _ _ _ => simp only [tagByte] at htag; exact absurd htag (by decide)
+    | unreliableSlice _ _ _ => simp only [tagByte] at htag; exact absurd htag (by decide)
+    | ack _ _ => simp only [tagByte] at htag; exact absurd htag (by decide)
+  | unreliableSlice sq' ch' sl' =>
+    cases p with
+    | unreliableSlice sq ch sl =>
+      obtain ⟨⟨c, hcm, rfl⟩, m, -, hmS, hbig, hn, -, -⟩ := hg
+      have hlen := hc.lensU c hcm m hmS
+      have hw := enc_unrelSlice_wf he (hc.chan c hcm) (by rw [hn]; exact divCeil_pos _ (by omega))
+        (by rw [hn]; exact slices_le_of_len hlen)
+      have := fromBytes_of_enc_wf hw he hd
+      rw [this]; exact hU.genU _ hmem
+    | smallReliable _ _ _ => simp only [tagByte] at htag; exact absurd htag (by decide)
+    | reliableSlice _ _ _ => simp only [tagByte] at htag; exact absurd htag (by decide)
+    | smallUnreliable _ _ _ => simp only [tagByte] at htag; exact absurd htag (by decide)
+    | ack _ _ => simp only [tagByte] at htag; exact absurd htag (by decide)
+
+theorem flush_recvU {c c' : Conn} {bs : List Bytes} (h : c.getPacketsToSend = .ok (c', bs)) : c'.recvUnrel = c.recvUnrel := by
+  rcases getPacketsToSend_unfold h with ⟨-, hc', -⟩ | ⟨-, sr, su, pk0, seq0, avail, sent, -, -, hser⟩
+  · rw [hc']
+  · rcases hser with ⟨-, rfl⟩ | ⟨e, -, -, rfl⟩
+    · rfl
+    · exact (Conn.disconnectWith_same _ _).2.2.2
+
+theorem invUB_mono {cfg : Cfg} {s : Sys} {Lg Lg' : Nat → List Bytes} (hL : ∀ ch, Lg ch <+: Lg' ch) (h : InvUB cfg s Lg) :
+    InvUB cfg s Lg' :=
+  ⟨fun hd ch r hf hk => chanBU_mono (List.prefix_refl _) (hL ch) (h.recvBU hd ch r hf hk), h.conclU⟩
+
+theorem invUB_step {cfg : Cfg} {s s' : Sys} {pkA : List Packet} {op : SysOp} {Lg : Nat → List Bytes}
+    (h1 : Inv1 cfg s pkA) (h2 : Inv2 cfg s pkA) (hUA : InvUA cfg s pkA Lg) (hUB : InvUB cfg s Lg)
+    (hs : s.step op = some s') (hc : CountersOK cfg s) : InvUB cfg s' Lg := by
+  cases op with
+  | sendA ch m =>
+    simp only [Sys.step] at hs
+    split at hs
+    · rename_i a' hm
+      cases hs
+      have hpre : ∀ c, s.submittedU c <+: (if offeredU s.a ch then push s.submittedU ch m else s.submittedU) c := by
+        intro c
+        split
+        · exact push_prefix _ _ _ c
+        · exact List.prefix_refl _
+      exact ⟨fun hd c r hf hk => chanBU_mono (hpre c) (List.prefix_refl _) (hUB.recvBU hd c r hf hk),
+        fun c hk x hx => (hpre c).subset (hUB.conclU c hk x hx)⟩
+    · cases hs
+  | recvB ch =>
+    simp only [Sys.step] at hs
+    have key : ∀ (b' : Conn) (mo : Option Bytes), s.b.receiveMessage ch = .ok (b', mo) →
+        ∀ obt' : Nat → List Bytes, obt' ch = s.obtained ch ++ mo.toList → (∀ c, c ≠ ch → obt' c = s.obtained c) →
+        InvUB cfg { s with b := b', obtained := obt' } Lg := by
+      intro b' mo hm obt' ho1 ho2
+      rcases receiveMessage_cases hm with ⟨hd, rfl, rfl⟩ | ⟨hd, r, r', hf, hrecv, rfl⟩ | ⟨hd, hf, hrr, hst⟩
+      · have hobt : obt' = s.obtained := by
+          funext c
+          by_cases e : c = ch
+          · subst e; rw [ho1]; simp
+          · exact ho2 c e
+        rw [hobt]
+        exact ⟨hUB.recvBU, hUB.conclU⟩
+      · have hk : RelKind cfg ch ≠ none := by
+          rw [← (h2.recvB hd).1 ch, hf]; simp
+        refine ⟨?_, ?_⟩
+        · intro hd' c rU hfu hkc
+          have e : c ≠ ch := fun e => hk (e ▸ hkc)
+          dsimp only at hfu ⊢
+          rw [ho2 c e]
+          exact hUB.recvBU hd c rU hfu hkc
+        · intro c hkc
+          have e : c ≠ ch := fun e => hk (e ▸ hkc)
+          dsimp only
+          rw [ho2 c e]
+          exact hUB.conclU c hkc
+      · obtain ⟨rU, rU', hfu, hrecv, hru, -⟩ := receiveMessage_casesU hm hd hf
+        have hdd : b'.isDisconnected = s.b.isDisconnected := isDisconnected_congr hst
+        have hk : RelKind cfg ch = none := by rw [← (h2.recvB hd).1 ch, hf]; rfl
+        have hnew : ChanBU (s.submittedU ch) (Lg ch) rU' (obt' ch) := by
+          rw [ho1]; exact chanBU_recv (hUB.recvBU hd ch rU hfu hk) hrecv
+        refine ⟨?_, ?_⟩
+        · intro _ c r hfr hkc
+          dsimp only at hfr ⊢
+          rw [hru, SMap.find?_insert] at hfr
+          split at hfr
+          · rename_i e; subst e; cases hfr; exact hnew
+          · rename_i e
+            rw [ho2 c (fun e' => e e'.symm)]
+            exact hUB.recvBU hd c r hfr hkc
+        · intro c hkc
+          dsimp only
+          by_cases e : c = ch
+          · subst e; exact chanBU_obt hnew
+          · rw [ho2 c e]; exact hUB.conclU c hkc
+    split at hs
+    · rename_i b' m hm
+      cases hs
+      exact key b' (some m) hm _ (push_same _ _ _) (fun c e => push_other _ _ e)
+    · rename_i b' hm
+      cases hs
+      exact key b' none hm _ (by simp) (fun _ _ => rfl)
+    · cases hs
+  | updA dt =>
+    simp only [Sys.step] at hs
+    split at hs
+    · cases hs; exact ⟨hUB.recvBU, hUB.conclU⟩
+    · cases hs
+  | updB dt =>
+    simp only [Sys.step] at hs
+    split at hs
+    · rename_i b' hm
+      cases hs
+      obtain ⟨-, e2⟩ := update_recv hm
+      refine ⟨?_, hUB.conclU⟩
+      intro hd c r' hf hk
+      dsimp only at hd hf ⊢
+      rw [isDisconnected_congr e2] at hd
+      obtain ⟨r, hfr, hdis⟩ := discardAll_find _ _ _ (update_recvU hm) c r' hf
+      exact chanBU_discard (hUB.recvBU hd c r hfr hk) hdis
+    · cases hs
+  | flushA =>
+    simp only [Sys.step] at hs
+    split at hs
+    · cases hs; exact ⟨hUB.recvBU, hUB.conclU⟩
+    · cases hs
+  | flushB =>
+    simp only [Sys.step] at hs
+    split at hs
+    · rename_i b' bs hm
+      cases hs
+      obtain ⟨-, -, -, -, -, -, f7⟩ := flush_facts h1.invB.1 hm
+      refine ⟨?_, hUB.conclU⟩
+      intro hd
+      dsimp only at hd ⊢
+      rw [flush_recvU hm]; exact hUB.recvBU (f7 hd)
+    · cases hs
+  | deliverToB k =>
+    simp only [Sys.step] at hs
+    split at hs
+    · cases hs
+    · rename_i bytes hb
+      split at hs
+      · rename_i b' hm
+        cases hs
+        refine ⟨?_, hUB.conclU⟩
+        intro hd'
+        dsimp only at hd' ⊢
+        rcases processPacket_recvU h1.invB.1 hm with hdis | ⟨hd, p', hdec, hmatch⟩
+        · rw [hdis] at hd'; cases hd'
+        · have hgen := decoded_genuineU h1 hUA hc hb hdec
+          have hold := hUB.recvBU hd
+          cases p' with
+          | smallUnreliable sq ch msgs =>
+            obtain ⟨r, hf, hrr⟩ := hmatch
+            rw [hrr]
+            intro c r2 hf2 hkc
+            rw [SMap.find?_insert] at hf2
+            split at hf2
+            · rename_i e; subst e; cases hf2
+              exact chanBU_msgs (hold ch r hf hkc) msgs hgen.2.2
+            · exact hold c r2 hf2 hkc
+          | unreliableSlice sq ch sl =>
+            obtain ⟨r, r', hf, hps, hrr⟩ := hmatch
+            rw [hrr]
+            intro c r2 hf2 hkc
+            rw [SMap.find?_insert] at hf2
+            split at hf2
+            · rename_i e; subst e; cases hf2
+              exact chanBU_slice (hold ch r hf hkc) hgen.2 hps
+            · exact hold c r2 hf2 hkc
+          | smallReliable sq ch msgs => dsimp only at hmatch; rw [hmatch]; exact hold
+          | reliableSlice sq ch sl => dsimp only at hmatch; rw [hmatch]; exact hold
+          | ack sq ranges => dsimp only at hmatch; rw [hmatch]; exact hold
+      · cases hs
+  | deliverToA k =>
+    simp only [Sys.step] at hs
+    split at hs
+    · cases hs
+    · split at hs
+      · cases hs; exact ⟨hUB.recvBU, hUB.conclU⟩
+      · cases hs
+
+/-- layer U as one statement about the state: some assignment of sliced-message ids to messages makes both parts hold -/
+def InvU (cfg : Cfg) (s : Sys) (pkA : List Packet) : Prop :=
+  ∃ Lg : Nat → List Bytes, InvUA cfg s pkA Lg ∧ (CountersOK cfg s → InvUB cfg s Lg)
+
+theorem invU_init (cfg : Cfg) : InvU cfg (Sys.init cfg) [] := ⟨_, invUA_init cfg, fun _ => invUB_init cfg⟩
+
+theorem invU_step {cfg : Cfg} {s s' : Sys} {pkA : List Packet} {op : SysOp} (h1 : Inv1 cfg s pkA)
+    (h2 : CountersOK cfg s → Inv2 cfg s pkA) (hU : InvU cfg s pkA) (hs : s.step op = some s') :
+    InvU cfg s' (nextPk s op pkA) := by
+  obtain ⟨Lg, hA, hB⟩ := hU
+  obtain ⟨Lg', hL, hA'⟩ := invUA_step h1 hA hs
+  refine ⟨Lg', hA', ?_⟩
+  intro hc'
+  have hc := counters_step h1 hs hc'
+  exact invUB_mono hL (invUB_step h1 (h2 hc) hA (hB hc) hs hc)
+
+/-! ## the invariants hold along every run -/
+
+/-- the ghost packet list after a run (mirrors `Sys.run`) -/
+def runPk (s : Sys) : List SysOp → List Packet → List Packet
+  | [], pk => pk
+  | op :: ops, pk =>
+    match s.step op with
+    | some s' => runPk s' ops (nextPk s op pk)
+    | none => pk
+
+theorem inv_run (cfg : Cfg) : ∀ (ops : List SysOp) (s s' : Sys) (pkA : List Packet),
+    Inv1 cfg s pkA → (CountersOK cfg s → Inv2 cfg s pkA) → InvR cfg s pkA → InvU cfg s pkA → s.run ops = some s' →
+    Inv1 cfg s' (runPk s ops pkA) ∧ (CountersOK cfg s' → Inv2 cfg s' (runPk s ops pkA)) ∧ InvR cfg s' (runPk s ops pkA) ∧
+      InvU cfg s' (runPk s ops pkA)
+  | [], s, s', pkA, h1, h2, h3, h4, hr => by
+    simp only [Sys.run, Option.some.injEq] at hr; subst hr; exact ⟨h1, h2, h3, h4⟩
+  | op :: ops, s, s', pkA, h1, h2, h3, h4, hr => by
+    simp only [Sys.run] at hr
+    cases hs : s.step op with
+    | none => rw [hs] at hr; cases hr
+    | some s1 =>
+      rw [hs] at hr
+      simp only [runPk, hs]
+      exact inv_run cfg ops s1 s' _ (inv1_step h1 hs)
+        (fun hc => inv2_step h1 (h2 (counters_step h1 hs hc)) hs hc) (invR_step h1 h3 hs) (invU_step h1 h2 h4 hs) hr
+
+/-- every state reachable from the initial one satisfies layer 1, and layer 2 when its counters are in range -/
+theorem system_inv (cfg : Cfg) (ops : List SysOp) (s : Sys) (hr : (Sys.init cfg).run ops = some s) :
+    ∃ pkA, Inv1 cfg s pkA ∧ (CountersOK cfg s → Inv2 cfg s pkA) ∧ InvR cfg s pkA ∧ InvU cfg s pkA :=
+  ⟨_, inv_run cfg ops _ s [] (inv1_init cfg) (fun _ => inv2_init cfg) (invR_init cfg) (invU_init cfg) hr⟩
+
+
+theorem counters_run_from (cfg : Cfg) : ∀ (ops : List SysOp) (s s' : Sys) (pkA : List Packet),
+    Inv1 cfg s pkA → s.run ops = some s' → CountersOK cfg s' → CountersOK cfg s
+  | [], s, s', _, _, hr, hc => by
+    simp only [Sys.run, Option.some.injEq] at hr; subst hr; exact hc
+  | op :: ops, s, s', pkA, h1, hr, hc => by
+    simp only [Sys.run] at hr
+    cases hs : s.step op with
+    | none => rw [hs] at hr; cases hr
+    | some s1 =>
+      rw [hs] at hr
+      exact counters_step h1 hs (counters_run_from cfg ops s1 s' _ (inv1_step h1 hs) hr hc)
+
+/-- the counters hypothesis propagates backwards along a run -/
+theorem counters_run (cfg : Cfg) (ops1 ops2 : List SysOp) (s1 s : Sys) (hr1 : (Sys.init cfg).run ops1 = some s1)
+    (hr2 : s1.run ops2 = some s) (hc : CountersOK cfg s) : CountersOK cfg s1 := by
+  obtain ⟨pkA, h1, -⟩ := system_inv cfg ops1 s1 hr1
+  exact counters_run_from cfg ops2 s1 s pkA h1 hr2 hc
+
+
+
+/-- channel id `ch` is configured (A → B) as Unreliable only -/
+def Cfg.Unreliable (cfg : Cfg) (ch : Nat) : Prop := ∀ c ∈ cfg.send, c.id = ch → c.kind = .unreliable
+
+theorem relKind_unreliable {cfg : Cfg} {ch : Nat} (h : cfg.Unreliable ch) : RelKind cfg ch = none := by
+  unfold RelKind
+  simp only [Sys.init, Conn.fromChannels]
+  cases hf : SMap.find? ((cfg.send.filter (·.kind != .unreliable)).foldl
+      (fun m c => SMap.insert m c.id (RecvRel.new c.maxMem (c.kind == .ordered))) []) ch with
+  | none => rfl
+  | some r =>
+    rcases SI.foldl_insert_find (fun c : ChanCfg => c.id) (fun c => RecvRel.new c.maxMem (c.kind == .ordered)) _ _ ch r hf with h0 | ⟨c, hc, h1, -⟩
+    · cases h0
+    · obtain ⟨hcm, hck⟩ := List.mem_filter.mp hc
+      rw [h c hcm h1] at hck
+      exact absurd hck (by decide)
 
 end RenetVerif.System
